@@ -17,12 +17,15 @@ _REF = None
 
 
 def straight(f):
+    from .features import debug_regions
+    region = debug_regions(f)
     for i in f.live:
         t = f.blocks[i]["term"]
         if t["t"] == "switch" and len(set(f.lsuccs(i))) > 1:
+            # debug-only assertion plumbing is not a branch of the function (SA-BELIEF reads those)
+            if i in region or _belief_edge(f, i):
+                continue
             return False
-        if t["t"] == "assert":
-            pass
     # no loops
     try:
         order = f.rpo()
